@@ -94,6 +94,18 @@ partial def parseArg : Sx → Option DecodeArg
     let n ← smallDec n 3
     pure (.len n (← parseArg x))
   | .list (.atom "fields" :: xs) => (xs.mapM parseArg).map .fields
+  | .list (.atom "each" :: xs) => (xs.mapM parseArg).map .each
+  | .list (.atom "arreach" :: xs) => (xs.mapM parseArg).map .arrEach
+  | .atom "each" => some (.each [])
+  | .atom "arreach" => some (.arrEach [])
+  | _ => none
+
+partial def parseArgTy : Sx → Option ArgTy
+  | .atom "u" => some .unit
+  | .list [.atom "len", x] => (parseArgTy x).map .len
+  | .list [.atom "each", .atom n, x] => do pure (.each (← smallDec n 2) (← parseArgTy x))
+  | .list [.atom "arreach", .atom n, x] => do pure (.arrEach (← smallDec n 2) (← parseArgTy x))
+  | .list (.atom "fields" :: xs) => (xs.mapM parseArgTy).map .fields
   | _ => none
 
 mutual
@@ -159,6 +171,7 @@ structure St where
   table : List (List Nat) := []
   idx : Nat := 0
   shape : Option SetShape := none
+  argTy : ArgTy := .unit
   client : Option ClientVal := none
   metas : List Meta := []
   extras : List Key := []
@@ -189,14 +202,14 @@ def step (st : St) (toks : List String) : St × String :=
     match ds.mapM parseDisc with
     | some t => ({ table := t }, s!"ok {t.length}")
     | none => bad
-  | ["set", _name, shape, idx] =>
-    match (readSx shape).bind parseShape, smallDec idx 3 with
-    | some s, some i =>
+  | ["set", _name, shape, argTy, idx] =>
+    match (readSx shape).bind parseShape, (readSx argTy).bind parseArgTy, smallDec idx 3 with
+    | some s, some ty, some i =>
       if i < st.table.length then
-        ({ table := st.table, idx := i, shape := some s },
+        ({ table := st.table, idx := i, shape := some s, argTy := ty },
          s!"ok min={minLen s} len={accountLen s} copt={showBool (containsOption s)}")
       else bad
-    | _, _ => bad
+    | _, _, _ => bad
   | ["tix", idx, _name, selfAnn, anns, vals, k] =>
     match smallDec idx 3, parseAnn selfAnn, (anns.splitOn ",").mapM parseAnn,
           (vals.splitOn ",").mapM (fun v => (smallDec v 3).bind (fun x => if x < 256 then some x else none)),
@@ -217,7 +230,7 @@ def step (st : St) (toks : List String) : St × String :=
     | some s, some v =>
       if harnessTyped s v then
         let ms := clientMetas pid s v
-        ({ table := st.table, idx := st.idx, shape := st.shape, client := some v, metas := ms }, s!"ok {showMetas ms}")
+        ({ table := st.table, idx := st.idx, shape := st.shape, argTy := st.argTy, client := some v, metas := ms }, s!"ok {showMetas ms}")
       else bad
     | _, _ => bad
   | "extra" :: names =>
@@ -241,7 +254,7 @@ def step (st : St) (toks : List String) : St × String :=
   | ["ix", darg, a, b, c, d] =>
     match st.shape, st.client, (readSx darg).bind parseArg, smallDec a 3, smallDec b 20, parseBool c, parseHex d with
     | some s, some _, some arg, some a, some b, some cb, some d =>
-      if argTyped s arg ∧ a < 256 ∧ b < 256 ^ 8 ∧ (c = "0" ∨ c = "1") ∧ d.length ≤ 64 then
+      if argTyped s arg ∧ hasTy st.argTy arg ∧ a < 256 ∧ b < 256 ^ 8 ∧ (c = "0" ∨ c = "1") ∧ d.length ≤ 64 then
         let run : RunArgs := { a, b, c := cb, d }
         let data := ixData (st.table.getD st.idx []) (serArg arg ++ serRun run)
         ({ st with ix := some data, run := none }, s!"ok {toHex data}")
@@ -250,7 +263,7 @@ def step (st : St) (toks : List String) : St × String :=
   | ["run"] =>
     match st.shape, st.client, st.ix with
     | some s, some _, some data =>
-      match entry st.table st.idx pid s data (accounts st) with
+      match entry st.table st.idx pid s st.argTy data (accounts st) with
       | .error .badData => ({ st with run := some none }, "err:data")
       | .error (.decode e) => ({ st with run := some none }, showE e)
       | .ok o =>
